@@ -48,6 +48,9 @@ def step (args : List String) : String :=
   | "mate1" :: fen => match readFEN (fenOf fen) with
     | .ok p => b2s (hasMateIn1 p)
     | .error e => "err " ++ e.toString
+  | "mate1mv" :: fen => match readFEN (fenOf fen) with        -- all mating moves (specification only)
+    | .ok p => " ".intercalate (((genLegal p).filter fun m => isMated (nextPos p m)).map mvToUci)
+    | .error e => "err " ++ e.toString
   | "wincert" :: n :: f1 :: f2 :: f3 :: f4 :: f5 :: f6 :: toks =>
     match parseNat? n, readFEN (fenOf [f1, f2, f3, f4, f5, f6]) with
     | some n, .ok p =>
